@@ -346,7 +346,14 @@ where
                     match next {
                         // Wait for notification when the stream goes pending
                         Poll::Pending       => {
-                            stream_core.lock().unwrap().notify_stream_closed = Some(desync_waker.clone());
+                            let mut stream_core = stream_core.lock().unwrap();
+
+                            if stream_core.closed {
+                                // The output stream was dropped while we were in this loop (so it had no notifier to wake): stop polling now
+                                return false;
+                            }
+
+                            stream_core.notify_stream_closed = Some(desync_waker.clone());
                             return true
                         },
 
